@@ -30,7 +30,7 @@ KINDS = [(50, "good"), (8, "crc32-bit"), (6, "crc32-rand"), (6, "crc16"), (6, "c
 
 def gen_cases(tier, rng):
     # the DUT holds two CRC-32 networks: elaboration costs seconds and pysim runs it at a few hundred cycles/s
-    n = {"quick": 30, "widen": 90}.get(tier, 300)
+    n = {"quick": 30, "widen": 90}.get(tier, 200)
     out = []
     for k in range(n):
         out.append({"seed": rng.u64(), "k": k, "npk": 6 if tier == "quick" else 10, "twin": int(k % 3 == 1 or k % 6 == 3)})
